@@ -827,7 +827,10 @@ class Context:
                 value = holder.get_own(name)
                 if isinstance(value, JSArray):
                     for i in range(len(value._elements)):
-                        value._elements[i] = revive(value, str(i))
+                        revived = revive(value, str(i))
+                        # (the reviver may have shortened the array meanwhile)
+                        if i < len(value._elements):
+                            value._elements[i] = revived
                 elif isinstance(value, JSObject):
                     for key in value.keys():
                         revived = revive(value, key)
